@@ -14,6 +14,7 @@ PatOK(p) == LET o == p.obs IN
             /\ o.panic = ""
             /\ o.err = ""                         \* nothing matching is an empty result, not an error
             /\ ToSet(o.res) = ToSet(p.exp)        \* exactly the existing matching paths ("." and ".." are optional members)
+            /\ ToSet(o.strs) = ToSet(p.expstr)     \* spelled with the pattern's separators (absolute / repeated slashes kept)
             /\ o.sorted /\ o.nodup /\ o.lstat /\ o.slashok
 
 Chk == \A i \in 1..Len(Recs[k].pats) : PatOK(Recs[k].pats[i]) \/ PrintT(<<"MISMATCH", k, i>>)
